@@ -284,3 +284,5 @@ def run(ctx):
     tstate.predicates(r7, ctx.facts, ['is_send_closed', 'is_send_streaming'])
     boundaries.check_amounts(ctx, 'C02.RA', 'C02')
     boundaries.check_stream_new(ctx, 'C02.RN')
+    from .. import boundaries as _b
+    _b.check_predicates(ctx, 'C02.RP', 'C02')
